@@ -370,7 +370,9 @@ class PageBreakCalculator(BaseModel):
                         header_text, total_width, font_size=int(font_size)
                     )  # type: ignore
 
-            total_rows = max_lines_in_row + pageby_rows + subline_rows
+            # The subline_by heading is reserved once per page (see
+            # calculate_additional_rows_per_page); do not reserve it again here.
+            total_rows = max_lines_in_row + pageby_rows
 
             row_metadata_list.append(
                 {
